@@ -183,7 +183,7 @@ Definition repair_cascade_node (cfg : config) (env : repair_env) (topo : list (h
               | None => Panic 1971
               | Some cst =>
                   match node_gtid cst with
-                  | None => Panic 1975                      (* MasterState / SlaveState nil dereference *)
+                  | None => Ret la                          (* the candidate's state is incomplete: put off *)
                   | Some cg =>
                       let mine := rs_executed myrs in
                       let cuuid := match assoc cand (re_uuid_of env) with Some u => u | None => 0%N end in
